@@ -45,6 +45,8 @@ M = {
  "no longer write into their array arguments": ("C06", "Data.rescale, GeoGrid.region_indices and GeoNetwork.latlon2cartesian modified their array arguments in place (finding #30)"),
  "clears the diagonal instead of subtracting": ("C07", "JointRecurrenceNetwork([0,0],[0,0],threshold=(0,1)) had adjacency [[-1,0],[0,-1]] (JR - identity where JR[i,i]==0)"),
  "twinness of the component": ("C02 C03 C04", "nsi_arenas_betweenness(stopping_mode='twinness') indexed the whole-network twinness matrix with component-local indices: isolated node 0 + path 1-2-3 gave [0, 1.2857, 0, 3.0]"),
+ "zero-variance series with an inexact mean": ("C10", "CouplingAnalysis(d).cross_correlation(0,'all') with a column of seven 0.1: entries nan / inf instead of 0 (anomalies a non-zero constant, std 0, only NaN was reset)"),
+ "quantile thresholds of narrow integer": ("C16", "make_event_matrix(int8 column [-84,-60,-44,116,98,122], 'quantile', 0.5, 'above') marked no event: np.quantile overflowed in int8 (threshold 155)"),
  "vanishing Fourier amplitudes": ("C15", "refined_AAFT_surrogates returned NaN rows when a Fourier coefficient of the iterate was exactly zero (e.g. [1,-1,2,-2,3,-3,0,0])"),
 }
 fixed = []
